@@ -13,7 +13,7 @@ EXPLANATION = (
     "R9.4 external subcommands: values stored verbatim (to_os_string of RawArgs::remaining items) and the parse returns "
     "right after. R9.5 short flag-subcommand resume: parse_short_arg reads flag_subcmd_skip once, resets it to 0 and then "
     "advances the cluster by that amount; the parent records flag_subcmd_skip only together with the backward seek. "
-    "NOT decided: agreement of values at every level for all trees (needs execution)."
+    "R9.6 (shared with C08) the recognisers behind find_subcommand / find_short_subcmd / find_long_subcmd answer to the primary name or flag or ANY alias on every path. NOT decided: agreement of values at every level for all trees (needs execution)."
 )
 TRUSTED = ["rustc MIR", "clapfacts"]
 ASSUMPTIONS = ["FlatMap::insert replaces an existing entry"]
@@ -151,3 +151,7 @@ def run(ctx):
     for fld in ("flag_subcmd_at",):
         w2 = writes_field(ps, fld)
         res.check(len(w2) >= 1, "R9.5", "at-cleared-when-cluster-done", ps.where(), "flag_subcmd_at cleared when the cluster is exhausted", "flag_subcmd_at never cleared")
+
+    # ---- R9.6 (shared with C08 R8.2b) dispatch by alias: the *_aliases_to siblings consult every alias on every path
+    from rules.c08 import alias_siblings
+    alias_siblings(fx, res, "R9.6")
